@@ -299,7 +299,9 @@ def correspondence_ag(ctx, rng, n_tol):
     cnt = 0
     for k, tol in enumerate(tols):
         g = ApproxGaussian(tol)
-        t, nm, c = agt.instance_text('agr%d' % k, tol, g.ranges)
+        # 1.08 tol, not 1.01: see finding C10:approx-gaussian-exceeds-tol (the 1.01 bound is checked by the
+        # search and proved for the tabulated tolerances)
+        t, nm, c = agt.instance_text('agr%d' % k, tol, g.ranges, slack=Fraction(108, 100))
         cnt += c
         texts.append(('C10_ag_%02d' % k, 'From PA Require Import gen.ApproxGaussianInst.\n'
                       'From Coq Require Import Reals.\nFrom Interval Require Import Tactic.\nOpen Scope R_scope.\n' + t))
@@ -349,9 +351,17 @@ def make_hit(name, args, detail, key):
 def spoly_key(args, detail):
     r, cos, rmin, rmax, c, r0, s = args
     c = np.asarray(c, float)
-    if 'broadcast' in detail and c.ndim == 2 and c.size and not np.any(c[-1]) and np.any(c) and (s != 1.0 or r0 != 0.0):
+    if 'raises ValueError' in detail and ('broadcast' in detail or 'not aligned' in detail) and c.ndim == 2 \
+            and c.size and not np.any(c[-1]) and np.any(c) and (s != 1.0 or r0 != 0.0):
         return 'C10:spolynomial-zero-top-row'
     return 'C10:spolynomial:%s' % ('raises' if 'raises' in detail else detail.split('[')[0])
+
+
+def ag_key(args, detail):
+    m = re.match(r'max deviation ([0-9.eE+-]+) > 1.01 \* tol', detail)
+    if m and float(m.group(1)) <= 1.08 * args[0]:
+        return 'C10:approx-gaussian-exceeds-tol'
+    return 'C10:approx_gaussian:' + detail.split('(')[0][:40]
 
 
 def gen_spoly_args(rng, allow_zero_top=True):
@@ -470,8 +480,7 @@ def search(ctx, rng, budget):
                 ('bs', kind, deg))
         if it % 4 == 0:
             tol = float(10 ** rng.uniform(-5, np.log10(5e-2)))
-            run('approx_gaussian', (tol,), lambda A, d: 'C10:approx_gaussian:' + d.split('(')[0].split('%')[0][:40],
-                ('ag', int(np.log10(tol) * 2)))
+            run('approx_gaussian', (tol,), ag_key, ('ag', int(np.log10(tol) * 2)))
     return hits, n_eval, len(distinct)
 
 
